@@ -44,6 +44,7 @@ int orc_cb_count(int cb);
 void orc_defer_queue(int thread, int fn, void *arg);	/* BEFORE defer_rcu() */
 void orc_defer_queued(int thread);			/* AFTER defer_rcu() returned */
 void orc_defer_invoked(int fn, void *arg);		/* inside the deferred function */
+void orc_defer_finished(int fn, void *arg);		/* at the end of the deferred function */
 int orc_defer_pending(int thread);			/* queued but not yet invoked (own) */
 int orc_defer_mark(int thread);				/* BEFORE a barrier: returns a mark */
 void orc_defer_check_all(int mark, const char *what);	/* AFTER rcu_defer_barrier() */
